@@ -195,7 +195,7 @@ async def _zip_inner_strict(
             ) from None
         # after the first iterable was empty, some later iterable may be not
         sentinel = object()
-        for tried, _aiter in _sync_builtins.enumerate(aiters):
+        for tried, _aiter in _sync_builtins.enumerate(aiters[1:], start=1):
             if await anext(_aiter, sentinel) is not sentinel:
                 plural = " " if tried == 1 else "s 1-"
                 raise ValueError(
